@@ -31,7 +31,7 @@ def dispatch_case(registry_kind: str = 'std'):
     def for_kind(kind: str, plain: bool = False):
         reg = stdreg.std_registry('sync' if plain else kind)
         return st.builds(
-            lambda text, beh, mbs, codec: {'dispatcher': kind, 'plain': plain, 'max_batch_size': batch_limit(text, mbs), 'behaviours': beh, 'text': text, 'codec': codec,
+            lambda text, beh, mbs, codec: {'dispatcher': kind, 'plain': plain, 'sequential': kind == 'async' and (len(beh) + len(codec)) % 3 == 0, 'max_batch_size': batch_limit(text, mbs), 'behaviours': beh, 'text': text, 'codec': codec,
                                            'logging': 'debug' if (len(beh) + (mbs is None)) % 3 == 0 else 'off'},
             docs.document(reg), stdreg.behaviours(True), st.sampled_from(BATCH_LIMITS), st.sampled_from(CODEC_CHOICES),
         )
@@ -126,13 +126,7 @@ class C01(Check):
                 {**base, 'text': t({'jsonrpc': '2.0', 'id': 1, 'method': 'rpc_err'}),
                  'behaviours': {'rpc_err': {'kind': 'raise_rpc', 'error': {'cls': 'JsonRpcError', 'code': 0, 'message': '', 'data': {'absent': True}}}}},
             ]
-        # every scripted exception type once per way of serving it: sync dispatcher, async dispatcher + coroutines, async dispatcher +
-        # plain functions (as a call next to a notification)
-        for kind, plain in (('sync', False), ('async', False), ('async', True)):
-            for exc in dict.fromkeys(stdreg.EXC_NAMES):
-                beh = {'boom': {'kind': 'raise_exc', 'exc': exc, 'marker': 'MARKER-c01-zq'}}
-                out.append({'dispatcher': kind, 'plain': plain, 'max_batch_size': None, 'behaviours': beh,
-                            'text': t([{'jsonrpc': '2.0', 'id': 1, 'method': 'boom'}, {'jsonrpc': '2.0', 'method': 'boom'}])})
+        out += stdreg.exception_corpus('MARKER-c01-zq')
         return out
 
     def run_case(self, spec: Any) -> Outcome:
